@@ -337,7 +337,7 @@ def verif_call(eng, st, fr, ins, name, args):
             regs[dest] = h(eng, st, ident)
         else:
             s = fresh('nd%d' % ident, 64)
-            st.marks.append(('nondet', ident, s, st.po))
+            st.marks.append(('nondet', ident, s, st.po, st.thread))
             regs[dest] = s
         return None
     if name == 'verif_assume':
